@@ -18,7 +18,12 @@ use vrp_pragmatic::format::solution::{
     deserialize_solution, read_init_solution, serialize_solution, write_pragmatic, Extras, Generation, Individual,
     Metrics, Population, PragmaticOutputType, Solution, Statistic,
 };
-use vrp_pragmatic::format::{CoordIndex, JobIndexExtraProperty};
+use vrp_core::models::problem::{JobIdDimension, Multi, VehicleIdDimension};
+use vrp_core::models::{Problem as CoreProblem, Solution as CoreSolution};
+use vrp_core::prelude::*;
+use vrp_core::rosomaxa::utils::{DefaultRandom, Environment, Parallelism};
+use vrp_core::solver::{Solver, VrpConfigBuilder};
+use vrp_pragmatic::format::{CoordIndex, CoordIndexExtraProperty, JobTypeDimension, ShiftIndexDimension};
 use vrp_pragmatic::validation::ValidationContext;
 
 fn ser_problem(p: &Problem) -> String {
@@ -144,11 +149,98 @@ fn op_csv(case: &Value) -> Value {
     }
 }
 
+fn end_of(x: f64) -> Value {
+    if x >= 1e300 { Value::Null } else { json!(x as i64) }
+}
+
+/// customer-job activities of a core solution, per route, in visiting order, with the place the activity uses
+fn dump_solution(problem: &CoreProblem, solution: &CoreSolution) -> Value {
+    let coord_index = problem.extras.get_coord_index().expect("coord index");
+    let mut routes = vec![];
+    for route in solution.routes.iter() {
+        let dimens = &route.actor.vehicle.dimens;
+        let vehicle_id = dimens.get_vehicle_id().cloned().unwrap_or_default();
+        let shift = dimens.get_shift_index().copied().unwrap_or(0);
+        let mut acts = vec![];
+        for a in route.tour.all_activities() {
+            let single = match a.job.as_ref() {
+                Some(s) => s,
+                None => continue,
+            };
+            let ty = single.dimens.get_job_type().cloned().unwrap_or_default();
+            if !matches!(ty.as_str(), "pickup" | "delivery" | "replacement" | "service") {
+                continue;
+            }
+            let (job_id, sub) = match Multi::roots(single) {
+                Some(multi) => (
+                    multi.dimens.get_job_id().cloned().unwrap_or_default(),
+                    multi.jobs.iter().position(|s| Arc::ptr_eq(s, single)).map(|p| p as i64).unwrap_or(-1),
+                ),
+                None => (single.dimens.get_job_id().cloned().unwrap_or_default(), 0),
+            };
+            acts.push(json!({
+                "job_id": job_id, "type": ty, "sub": sub, "place": a.place.idx, "loc": a.place.location,
+                "location": coord_index.get_by_idx(a.place.location).map(|l| serde_json::to_value(l).unwrap()),
+                "dur": a.place.duration as i64, "tw": [a.place.time.start as i64, end_of(a.place.time.end)],
+                "frac": a.place.duration.fract() != 0. || a.place.time.start.fract() != 0.,
+            }));
+        }
+        routes.push(json!({"vehicle_id": vehicle_id, "shift": shift, "acts": acts}));
+    }
+    let mut unassigned: Vec<String> =
+        solution.unassigned.iter().filter_map(|(job, _)| job.dimens().get_job_id().cloned()).collect();
+    unassigned.sort();
+    json!({"routes": routes, "unassigned": unassigned})
+}
+
+fn op_init(case: &Value) -> Value {
+    let problem_text = case["problem"].as_str().unwrap();
+    let matrix_text = case["matrix"].as_str().unwrap();
+    let generations = case["generations"].as_u64().unwrap_or(2) as usize;
+    let problem = deserialize_problem(BufReader::new(problem_text.as_bytes())).expect("problem document");
+    let matrix = deserialize_matrix(BufReader::new(matrix_text.as_bytes())).expect("matrix document");
+    let core = match (problem, vec![matrix]).read_pragmatic() {
+        Ok(p) => Arc::new(p),
+        Err(e) => return json!({"status": "problem-rejected", "err": e.to_string()}),
+    };
+    let environment = Arc::new(Environment {
+        random: Arc::new(DefaultRandom::new_repeatable()),
+        parallelism: Parallelism::new_with_cpus(1),
+        logger: Arc::new(|_: &str| {}),
+        ..Environment::default()
+    });
+    let solution = VrpConfigBuilder::new(core.clone())
+        .set_environment(environment.clone())
+        .prebuild()
+        .expect("prebuild")
+        .with_max_generations(Some(generations))
+        .build()
+        .map(|config| Solver::new(core.clone(), config))
+        .expect("solver")
+        .solve();
+    let solution = match solution {
+        Ok(s) => s,
+        Err(e) => return json!({"status": "not-solved", "err": e.to_string()}),
+    };
+    let orig = dump_solution(&core, &solution);
+    let mut writer = BufWriter::new(Vec::new());
+    if let Err(e) = write_pragmatic(&core, &solution, PragmaticOutputType::default(), &mut writer) {
+        return json!({"status": "write-err", "err": e.to_string(), "orig": orig});
+    }
+    let text = String::from_utf8(writer.into_inner().unwrap()).unwrap();
+    let written = value_of(&text);
+    match read_init_solution(BufReader::new(text.as_bytes()), core.clone(), environment.random.clone()) {
+        Ok(back) => json!({"status": "ok", "orig": orig, "back": dump_solution(&core, &back), "written": written}),
+        Err(e) => json!({"status": "read-err", "err": e.to_string(), "orig": orig, "written": written}),
+    }
+}
+
 pub fn run_case(case: &Value) -> Value {
     match case["op"].as_str().unwrap() {
         "rt" => op_rt(case),
         "flt" => op_flt(case),
         "csv" => op_csv(case),
+        "init" => op_init(case),
         _ => panic!("unknown op"),
     }
 }
